@@ -791,6 +791,8 @@ def _mutate(name: str, o: Any, var: int) -> Any:
     if var == 1:
         if name == "dist":       # the holder has no fields of its own but its children
             return replace(o, send=replace(o.send, dest_rank=2))
+        if name == "call":       # (tags of a NamedCallResult are a separate finding)
+            return replace(o, name="r1")
         return replace(o, tags=o.tags | {foo()})
     if var != 2:
         raise MachineryError(f"unknown mutation {var}")
